@@ -11,6 +11,7 @@ pub enum TObst<R: Raw> {
     Shell { c: R::StateType, r_in: f64, r_out: f64, door: Option<(R::StateType, f64)> },
     Box { lo: Vec<f64>, hi: Vec<f64> },
     Wall { axis: usize, lo: f64, hi: f64, gap: Option<(usize, f64, f64)> },
+    CompBall { off: usize, kind: Comp, c: Vec<f64>, r: f64 },
 }
 
 pub struct TypedWorld<R: Raw> {
@@ -40,6 +41,10 @@ impl<R: Raw> TypedWorld<R> {
                     needs_coords = true;
                     TObst::Wall { axis: *axis, lo: *lo, hi: *hi, gap: *gap }
                 }
+                Obstacle::CompBall { comp, c, r } => {
+                    needs_coords = true;
+                    TObst::CompBall { off: crate::spaces::comp_offset(lay, *comp), kind: lay[*comp], c: c.clone(), r: *r }
+                }
             })
             .collect();
         TypedWorld { obstacles, needs_coords }
@@ -68,6 +73,7 @@ impl<R: Raw> TypedWorld<R> {
                         && x < *hi
                         && !gap.is_some_and(|(ga, gl, gh)| coords[ga] > gl && coords[ga] < gh)
                 }
+                TObst::CompBall { off, kind, c, r } => crate::spaces::comp_dist(kind, &coords[*off..*off + kind.width()], c) < *r,
             };
             if inside {
                 return false;
